@@ -235,6 +235,14 @@ def run_selftest(prop: str, repo_root: str, jobs: int = 16, only: Optional[List[
                     'detail': ('verdict withheld: ' + detail) if status == 'withheld' else detail})
       if status == 'false-alarm':
         failures.append(f'refactor:{rid}(neutral):{status}:{detail[:160]}')
+    # the seeded changes of independent agents that this property's check reports must still be reported
+    from fjsa.selftest import seeds
+    for sid, expected, verdict, detail in seeds.run(prop, repo_root, jobs):
+      if verdict == 'skipped' or expected != 'caught':
+        continue
+      results.append({'id': f'seeded:{sid}', 'kind': 'break', 'status': 'killed' if verdict == 'violation' else 'survived', 'detail': detail})
+      if verdict != 'violation':
+        failures.append(f'seeded:{sid}(break):{verdict}:no longer reported')
     # the machinery fails closed where it must (floor unmet / undecided obligation on the reference tree, public anchor renamed)
     from fjsa.selftest import failclosed
     try:
